@@ -71,6 +71,7 @@ func (e *Engine) VerifyFunc(fc *FuncContract, fn *ssa.Function) (res *FuncResult
 	}
 	e.curFn, e.curFC = fn, fc
 	e.results = nil
+	e.liveBlocks = orderOnlyLiveBlocks(fc, fn)
 	st := e.newState(notes)
 	fr := &Frame{fn: fn, regs: map[ssa.Value]Val{}, blk: fn.Blocks[0], inLoop: map[*ssa.BasicBlock]bool{},
 		free: map[*ssa.FreeVar]Val{}, fc: fc, params: map[string]Val{}, cellByName: map[string]int{}}
@@ -299,4 +300,64 @@ func (e *Engine) CheckDefers(d *DefersSpec) *Query {
 	q.Status = "sat"
 	q.Model = d.Func + " no longer defers " + d.Callee + " in its entry block"
 	return q
+}
+
+// orderOnlyLiveBlocks: for a function whose contract consists of call-site rules only (nosafety, no ensures, no frame,
+// no onwrite, no loops with invariants, no closures or defers) a path can raise no further obligation once no call named in
+// an `atcall` clause is reachable any more. Returns the set of blocks from which such a call is reachable, or nil when the
+// optimisation does not apply. Paths that leave the set are ended (their obligations so far are kept).
+func orderOnlyLiveBlocks(fc *FuncContract, fn *ssa.Function) map[*ssa.BasicBlock]bool {
+	if fc == nil || !fc.NoSafety || len(fc.Ensures) > 0 || (fc.HasAssigns && !fc.FrameTrusted) || len(fc.OnWrites) > 0 || len(fc.Loops) > 0 || len(fc.AtCalls) == 0 {
+		return nil
+	}
+	names := map[string]bool{}
+	for _, ac := range fc.AtCalls {
+		n := ac.Callee
+		if i := strings.LastIndex(n, "."); i >= 0 {
+			n = n[i+1:]
+		}
+		names[n] = true
+	}
+	live := map[*ssa.BasicBlock]bool{}
+	for _, b := range fn.Blocks {
+		for _, in := range b.Instrs {
+			switch x := in.(type) {
+			case *ssa.MakeClosure, *ssa.Defer, *ssa.Go:
+				return nil
+			case *ssa.Call:
+				c := x.Common()
+				var n string
+				if c.IsInvoke() {
+					n = c.Method.Name()
+				} else if f, ok := c.Value.(*ssa.Function); ok {
+					n = f.Name()
+				} else if _, ok := c.Value.(*ssa.Builtin); ok {
+					continue
+				} else {
+					// call through a function value: its name is only known at run time of the engine
+					live[b] = true
+					continue
+				}
+				if names[n] {
+					live[b] = true
+				}
+			}
+		}
+	}
+	for changed := true; changed; {
+		changed = false
+		for _, b := range fn.Blocks {
+			if live[b] {
+				continue
+			}
+			for _, s := range b.Succs {
+				if live[s] {
+					live[b] = true
+					changed = true
+					break
+				}
+			}
+		}
+	}
+	return live
 }
